@@ -401,7 +401,7 @@ func init() {
 		Cases:       c16Total,
 		Exhaustive: func(tier string) string {
 			if tier == "thorough" {
-				return "every millisecond of [0,24h) for all six format configurations, every second boundary +-1ns, every centisecond (SSA) and frame (STL 25/30) boundary +-1ns; random family sampled"
+				return "every millisecond of [0,24h) for all eight format configurations, every second boundary +-1ns, every centisecond (SSA) and frame (STL 25/30) boundary +-1ns; random family sampled"
 			}
 			return ""
 		},
